@@ -790,18 +790,31 @@ def r19_hashmap_retain(text, keys_fn='hashmap_keys_u64', get_mut_fn='hashmap_get
         let M_keys = hashmap_keys_u64(&M);  // trusted: a Vec holding exactly the keys, each once
         cursor loop: let k = &M_keys[i]; let keep = match hashmap_get_mut_u64(&mut M, *k) { Some(v) => BODY, None => true }; if !keep { M.remove(k); }
     HashMap::retain visits every entry once in an unspecified order, keeps it iff BODY returns true: so does the loop."""
-    m = re.search(r'(?m)^(\s*)(\w+)\.retain\(\|(\w+), (\w+)\|\s*', text)
+    m = re.search(r'(?m)^(\s*)((?:self\.)?\w+(?:\.\w+)*)\.retain\(\|(\w+), (\w+)\|\s*', text)
     if not m:
         return text, 0
     ind, mp, k, v = m.group(1), m.group(2), m.group(3), m.group(4)
+    nm = mp.split('.')[-1]
     op = text.index('(', m.start())
     cp = match_bracket(text, op, '(', ')')
     body = text[m.end():cp].strip()
     me = re.compile(r'\s*;').match(text, cp + 1)
     if not me:
         raise RuleError('R19: retain shape')
-    new = (f'{ind}let {mp}_keys = {keys_fn}(&{mp});\n{ind}let mut {k}_nx: usize = 0;\n{ind}while {k}_nx < {mp}_keys.len()\n{ind}    /*@LOOPSPEC*/\n{ind}{{\n'
-           f'{ind}    let {k} = &{mp}_keys[{k}_nx]; {k}_nx += 1;\n'
-           f'{ind}    let keep = match {get_mut_fn}({mp}, *{k}) {{ Some({v}) => {body}, None => true }};\n'
+    mref = mp if '.' not in mp else '&mut ' + mp      # a `&mut HashMap` parameter is passed on as it is, a field is re-borrowed
+    new = (f'{ind}let {nm}_keys = {keys_fn}(&{mp});\n{ind}let mut {k}_nx: usize = 0;\n{ind}while {k}_nx < {nm}_keys.len()\n{ind}    /*@LOOPSPEC*/\n{ind}{{\n'
+           f'{ind}    let {k} = &{nm}_keys[{k}_nx]; {k}_nx += 1;\n'
+           f'{ind}    let keep = match {get_mut_fn}({mref}, *{k}) {{ Some({v}) => {body}, None => true }};\n'
            f'{ind}    if !keep {{ {mp}.remove({k}); }}\n{ind}}}')
     return text[:m.start()] + new + text[me.end():], 1
+
+
+def r19_entry_or_default_let(text, get_mut_fn='hashmap_get_mut_u64'):
+    """`let E = M.entry(K).or_default();`  ->  `if !M.contains_key(&(K)) { M.insert(K, Default::default()); }  let E = get_mut(&mut M, K).unwrap();`
+    (or_default inserts the default value when the key is absent and returns the entry's `&mut V` either way)."""
+    pat = re.compile(r'(?m)^(\s*)let (\w+) = ((?:self\.)?\w+(?:\.\w+)*)\.entry\(([^()]*(?:\([^()]*\))?[^()]*)\)\s*\.or_default\(\);')
+    def sub(m):
+        ind, e, mp, key = m.group(1), m.group(2), m.group(3), m.group(4).strip()
+        return (f'{ind}if !{mp}.contains_key(&({key})) {{ {mp}.insert({key}, Default::default()); }}\n'
+                f'{ind}let {e} = {get_mut_fn}(&mut {mp}, {key}).unwrap();')
+    return pat.subn(sub, text)
